@@ -181,28 +181,6 @@ def setupTyped {n p m : Nat} (hn : 0 < n) (be : Backend) (pk : PrecKind) (st : S
   { be, pk, st, data := d1, pre := pre1, kkt, w, info, kktInitState := true, setupDone := true,
     refineOn := st.refAlways }
 
-/-- the initial factorisation retry loop of `solve_impl` -/
-def initFactorLoop {n p m : Nat} (e : Env K n p m) (w : Work K n p m)
-    (refineOn : Bool) (retries : Nat) (info : Info K) (kkt : KKT K n p m) :
-    Bool × Nat × Info K × KKT K n p m × Bool :=
-  let k1 := KKT.regFactor e.be e.st.kkt e.data kkt refineOn e.inner
-  if k1.factOk then (refineOn, retries, info, k1, true)
-  else if hr : refineOn = false then initFactorLoop e w true retries info k1
-  else if hf : (retries : Int) < e.st.maxFactorRetires then
-    let info1 := bumpReg e { info with factorRetires := retries + 1 }
-    let k2 := kktScal e k1 w info1.rho info1.delta
-    initFactorLoop e w refineOn (retries + 1) info1 k2
-  else (refineOn, retries, { info with status := .numerics }, k1, false)
-termination_by ((if refineOn then 0 else 1 : Nat), e.st.maxFactorRetires.toNat - retries)
-decreasing_by
-  · subst hr
-    apply Prod.Lex.left
-    simp
-  · have hr' : refineOn = true := by simpa using hr
-    subst hr'
-    apply Prod.Lex.right
-    omega
-
 /-- `unscale_results` -/
 def unscaleResults {n p m : Nat} (pk : PrecKind) (pre : Precond K n p m) (w : Work K n p m) : Work K n p m :=
   { w with x := pre.unscalePrimal pk w.x, y := pre.unscaleDualEq pk w.y, z := pre.unscaleDualIneq pk w.z,
@@ -236,7 +214,11 @@ def solveTyped {n p m : Nat} (s : Solver K n p m) (perm : Vector (Fin (n + p + m
                      z := Vec.const m 1, z_lb := d.lb.headUpd s.w.z_lb fun _ => 1, z_ub := d.ub.headUpd s.w.z_ub fun _ => 1 }
         (w1, kktScal e s.kkt w1 info0.rho info0.delta)
       else (s.w, s.kkt)
-    let (refineOn, _, info1, kkt1, ok) := initFactorLoop e w0 s.refineOn 0 info0 kkt0
+    let il := initLoopG e.st e.cs (realOps e) s.refineOn 0 (w0, kkt0) info0
+    let refineOn := il.1
+    let info1 := il.2.2.2.1
+    let kkt1 := il.2.2.1.2
+    let ok := il.2.2.2.2
     if !ok then
       let w' := restoreBoxDual cs d (unscaleResults s.pk s.pre w0)
       ({ s with w := w', info := info1, kkt := kkt1, kktInitState := false, refineOn := refineOn }, .numerics)
